@@ -118,15 +118,28 @@ def one(ctx, ex, cplx, step, order, nt, N):
                           'one pseudo inverse per call', label, key='rmatrix-calls')
             return
         M = list(reg.mats.values())[0]
-        cols = column_exponents(M, 'r') if not cplx else column_exponents_c(M)
+        cols = None
+        for cand in (M, M.T):
+            try:
+                cols = column_exponents(cand, 'r') if not cplx else column_exponents_c(cand)
+            except AnalysisError:
+                cols = None
+            if cols is not None:
+                break
+        if cols is None:
+            # another arrangement of the linear system: the semantic rule R-EXTRAP decides
+            rep.ok('R-RMATRIX', 'extrapolation.Richardson._r_matrix', where,
+                   {'structure': 'not recognised as (transposed) Vandermonde-type matrix; decided by R-EXTRAP'}, label)
+            cols, skip_struct = [], True
+        else:
+            skip_struct = False
         want = [Fr(0)] + [Fr(order + step * j) for j in range(used)]
-        okm = cols is not None and M.shape == (used + 1, used + 1) and [k for k, _ in cols] == want and \
-            all(c.const_value() == Z8.ONE for _, c in cols)
-        rep.check(okm, 'R-RMATRIX', 'extrapolation.Richardson._r_matrix', where,
-                  {'shape': list(M.shape), 'exponents': [str(k) for k, _ in cols] if cols else None,
-                   'expected': [str(k) for k in want]}, 'columns 1, r^-(order+step*j)', label, key='rmatrix')
-        if not okm:
-            return
+        if not skip_struct:
+            okm = M.shape == (used + 1, used + 1) and [k for k, _ in cols] == want and \
+                all(c.const_value() == Z8.ONE for _, c in cols)
+            rep.check(okm, 'R-RMATRIX', 'extrapolation.Richardson._r_matrix', where,
+                      {'shape': list(M.shape), 'exponents': [str(k) for k, _ in cols] if cols else None,
+                       'expected': [str(k) for k in want]}, 'columns 1, r^-(order+step*j)', label, key='rmatrix')
     else:
         rep.ok('R-RMATRIX', 'extrapolation.Richardson.rule', where, {'terms_used': 0, 'rule': 'ones(1)'}, label)
     problems, cross = [], []
